@@ -194,15 +194,28 @@ func parseLine(p *parser) parseStateFn {
 	}
 }
 
+// commentKeyword reports whether a comment begins with the given keyword
+// (";name", ";assert", ...) as a word of its own, and returns the text after it
+func commentKeyword(comment, keyword string) (string, bool) {
+	if !strings.HasPrefix(comment, keyword) {
+		return "", false
+	}
+	rest := comment[len(keyword):]
+	if rest != "" && !strings.ContainsRune(" \t\r", rune(rest[0])) {
+		return "", false
+	}
+	return rest, true
+}
+
 // recordMetadata keeps the text of a ;name, ;author or ;strategy comment
 func (p *parser) recordMetadata(comment string) {
-	if strings.HasPrefix(comment, ";name") {
-		p.metadata.Name = strings.TrimSpace(comment[5:])
-	} else if strings.HasPrefix(comment, ";author") {
-		p.metadata.Author = strings.TrimSpace(comment[7:])
-	} else if strings.HasPrefix(comment, ";strategy") {
-		if len(comment) > 10 {
-			p.metadata.Strategy += comment[10:] + "\n"
+	if rest, ok := commentKeyword(comment, ";name"); ok {
+		p.metadata.Name = strings.TrimSpace(rest)
+	} else if rest, ok := commentKeyword(comment, ";author"); ok {
+		p.metadata.Author = strings.TrimSpace(rest)
+	} else if rest, ok := commentKeyword(comment, ";strategy"); ok {
+		if len(rest) > 1 {
+			p.metadata.Strategy += strings.TrimRight(rest[1:], " \t\r") + "\n"
 		}
 	}
 }
@@ -212,7 +225,7 @@ func (p *parser) recordMetadata(comment string) {
 // of its own so that it is evaluated like any other
 func (p *parser) recordLabelComment(comment string) {
 	p.recordMetadata(comment)
-	if strings.HasPrefix(comment, ";assert") {
+	if _, ok := commentKeyword(comment, ";assert"); ok {
 		p.lines = append(p.lines, sourceLine{line: p.line, typ: lineComment, comment: comment})
 	}
 }
